@@ -16,6 +16,13 @@ Per cell (one test problem + one option combination) the check decides on the re
       MCMC fallback for priors that cannot be sampled directly -, UQ) on the live problem object, with the default prior
       and with priors assigned through ``problem.prior = ...``, everything the problem hands out (data everywhere, model,
       likelihood, prior, posterior evaluated on probe points) has the values it had before the operation.
+  (g) user-supplied prior: for every problem whose constructor takes ``prior`` (Deconvolution1D incl. legacy form,
+      Deconvolution2D, WangCubic) x prior family x the way the prior's name is given (the name of the problem's own default
+      prior, explicit "x", another explicit name, unnamed = inferred from the caller's variable) x every noise type:
+      construction succeeds (a raise is a verdict), likelihood / posterior are functions of the prior's variable, the
+      prior handed out is the density that was passed, data == exactData + stated noise, and posterior.logd ==
+      reference Gaussian log-likelihood (reference operator, stated noise) + reference log-prior (dense, from the
+      family's documented density), positionally and by keyword.
 No statistical test is involved anywhere.
 """
 import hashlib
@@ -35,7 +42,11 @@ RULE = ("cells = test problem x constructor options (sub-products listed in BOUN
         "(zero and one generic vector); every cell evaluates the forward model on the complete parameter basis (linear "
         "models) or a point lattice (Poisson1D, WangCubic, mapped fields) and the posterior/likelihood/prior on a point "
         "lattice; a cell is non-trivial when the problem was constructed, exactData is finite and not constant and (for "
-        "noisy problems) the stream was asked for exactly one normal vector")
+        "noisy problems) the stream was asked for exactly one normal vector; *user-prior* cells (problem x prior family x "
+        "name kind x noise type x option sub-product) build the problem under the scripted stream (zero and one generic "
+        "vector, plus a default-prior sibling when the name is 'that of the default prior') and evaluate prior / "
+        "likelihood / posterior on 6 points (origin, two basis vectors, two generic vectors - one outside the support of "
+        "the Uniform prior -, one point next to the prior's mean) against dense references")
 BOUND = {
     "quick": "Deconvolution1D: dim {7,8} x PSF {gauss,moffat,defocus,custom asymmetric} x PSF_size {3,4,dim} x 5 BCs x "
              "noise {gaussian,scaledgaussian} x noise_std {0.01,0.1} (phantom sinc, default prior); + 10 phantoms x dim "
@@ -60,14 +71,22 @@ BOUND = {
              "legacy dim 8, Deconvolution2D dim 4, Heat1D / Poisson1D / Abel1D dim 5, WangCubic) x default prior x {MAP, ML, "
              "sample_posterior(20), sample_prior(20)} (+ UQ(20) for Deconvolution1D, Abel1D, WangCubic); x assigned LMRF / "
              "CMRF prior x sample_prior (MCMC fallback); assigned non-zero-mean Gaussian prior x {MAP, sample_posterior} "
-             "for Deconvolution1D / Abel1D.",
+             "for Deconvolution1D / Abel1D.  User-supplied prior: prior family {Gaussian (non-zero mean, non-constant "
+             "variances), GMRF, LMRF, CMRF (zero boundary, non-zero location), Laplace, Uniform} x name kind {name of the "
+             "default prior, 'x', 'z', inferred from the caller's variable} x [Deconvolution1D dim 8 x noise {gaussian, "
+             "scaledgaussian} x (PSF, PSF_size, BC) in {(gauss,3,periodic), (custom,4,zero)}; legacy form dim 8 PSF gauss x 2 "
+             "noise types; Deconvolution2D dim 4 (custom 3x3 PSF, Neumann) x 2 noise types x prior geometry {Image2D, "
+             "default}; WangCubic noise_std {1,.5} x data {default, 2.5}].",
     "thorough": "Deconvolution1D full product dim {7,8,16} x 4 PSFs x PSF_size {3,4,5,dim} x 5 BCs x 10 phantoms x 2 "
                 "noise types x 2 noise_std, + 4 priors x 2 noise types x 2 std x 3 dims x 5 BCs x {gauss,custom}; legacy "
                 "dims {8,16}; light option classes as quick with dims {7,8,16}, PSF_size {default, dim+1, dim+2, dim+3, "
                 "2dim, 2dim+1, 3dim, 3dim+1} and both noise types; Deconvolution2D dim {5,6,8} x 4 PSFs x PSF_size "
                 "{3,4,5} x 5 BCs x 2 noise types x 2 noise_std x 2 phantoms, light classes for dims {5,6}; PDE problems "
                 "and Abel1D as quick with dims {5,8,12} / {4,7,12}; histories: full product 7 problems x prior {default, "
-                "assigned Gaussian, LMRF, CMRF} x {MAP, ML, sample_posterior, sample_prior, UQ}",
+                "assigned Gaussian, LMRF, CMRF} x {MAP, ML, sample_posterior, sample_prior, UQ}; user-supplied prior: 6 "
+                "families x 4 name kinds x [Deconvolution1D dims {7,8,16} x 2 noise types x PSF {gauss, custom} (size 4) x "
+                "5 BCs; legacy dims {8,16} x PSF {gauss, custom} x 2 noise types; Deconvolution2D dims {4,5} x PSF {gauss, "
+                "custom} (size 3) x 5 BCs x 2 noise types x 2 prior geometries; WangCubic as quick]",
 }
 ASSUMPTIONS = [
     "documented PSFs are read as: Gaussian exp(-x^2/(2 s^2)), Moffat (1+x^2/s^2)^-1, out-of-focus = indicator of the disc "
@@ -98,6 +117,16 @@ ASSUMPTIONS = [
     "a constructor that raises is counted as a refusal (not judged), except that the docstring spelling of an option value "
     "must not be refused when its lower-case spelling is accepted",
     "the law of numpy's standard normal generator is the trusted base: the noise is decided through its affine image",
+    "user-supplied prior: the constructors document ``prior : cuqi.distribution.Distribution`` without restricting family, "
+    "geometry or name, and cuqi documents that an unnamed density takes the name of the caller's variable; every cell of "
+    "the stated product is therefore demanded to construct (a raise is the verdict 'construct-raises', not a refusal; "
+    "only the default-prior sibling used to read off the default name may refuse).  Reference log-priors are the "
+    "documented densities in dense numpy (checks/_tp_refs.user_prior_logd): N(mean, diag var); GMRF order 1, zero "
+    "boundary = N(mean, (prec D^T D)^-1); LMRF / CMRF = i.i.d. Laplace / Cauchy on the zero-boundary differences (both "
+    "directions for an Image2D geometry, a chain for a default geometry); i.i.d. Laplace; Uniform box (log-density -inf "
+    "outside, where the posterior must be -inf as well).  Not covered: hierarchical / conditional priors, priors of a "
+    "wrong dimension, the private problems _Deblur / _Deconv_1D, priors assigned after construction under another name "
+    "than the likelihood's parameter (the assigned-prior histories use the problem's own parameter name)",
     "history cells run the operation with numpy's global generator as re-seeded by the runner (the values drawn are not "
     "judged, only the problem's components before / after); an operation that raises counts as refused but must leave "
     "the components unchanged as well; histories of length one only (plus the after-MAP probe of the full "
@@ -323,6 +352,31 @@ def cells(tier, seed):
         for data in (None, 2.5, 0, 0.0, -1.5):      # incl. the falsy observations 0 / 0.0
             for pr in ("default", "gaussian"):
                 out.append({"fam": "wang", "std": std, "data": data, "prior": pr, "cat": k})
+    # --- (g) user-supplied prior: every problem whose constructor takes ``prior`` x prior family x how the prior's
+    #     name is given x every noise type x a sub-product of the other options
+    for pfam in tp.PRIOR_FAMILIES:
+        for nk in UP_NAMES:
+            for noise in NOISE:
+                for dim in ((8,) if not T else (7, 8, 16)):
+                    for psf, size, bc in (UP_D1_OPTS if not T else
+                                          [(p, 4, b) for p in ("gauss", "custom") for b in tp.BC_1D]):
+                        out.append({"fam": "uprior", "prob": "d1", "pfam": pfam, "name": nk, "noise": noise, "dim": dim,
+                                    "PSF": psf, "size": size, "BC": bc, "std": 0.05, "cat": k})
+                    if dim != 7:
+                        for psf in (("gauss",) if not T else ("gauss", "custom")):
+                            out.append({"fam": "uprior", "prob": "d1leg", "pfam": pfam, "name": nk, "noise": noise,
+                                        "dim": dim, "PSF": psf, "std": 0.05, "cat": k})
+                for dim in ((4,) if not T else (4, 5)):
+                    for psf, size, bc in (UP_D2_OPTS if not T else
+                                          [(p, 3, b) for p in ("gauss", "custom") for b in tp.BC_2D]):
+                        for pgeom in ("image2d", "default"):
+                            out.append({"fam": "uprior", "prob": "d2", "pfam": pfam, "name": nk, "noise": noise,
+                                        "dim": dim, "PSF": psf, "size": size, "BC": bc, "pgeom": pgeom, "std": 0.05,
+                                        "cat": k})
+            for std in (1, 0.5):
+                for data in (None, 2.5):
+                    out.append({"fam": "uprior", "prob": "wang", "pfam": pfam, "name": nk, "std": std, "data": data,
+                                "cat": k})
     return out
 
 
@@ -1432,6 +1486,231 @@ def _short(v):
     return v if isinstance(v, str) else np.asarray(v).ravel()[:4].tolist()
 
 
+# ----------------------------------------------------------------------------------------
+# (g) user-supplied prior: problem x prior family x how the prior's name is given x noise type
+# ----------------------------------------------------------------------------------------
+UP_NAMES = ["default", "x", "other", "inferred"]
+UP_D1_OPTS = [("gauss", 3, "periodic"), ("custom", 4, "zero")]
+UP_D2_OPTS = [("custom", 3, "neumann")]
+_UP_OTHER = "z"                 # an explicit name that is not the one of the problem's default prior
+_UP_LOCAL = "qprior"            # the caller's variable the library infers the name of an unnamed prior from
+
+
+def _up_distribution(kind, params, geometry, name):
+    """The cuqi distribution of family ``kind`` with the catalogue parameters (name=None: left unnamed)."""
+    import cuqi
+    D = cuqi.distribution
+    cls = {"gaussian": D.Gaussian, "gmrf": D.GMRF, "lmrf": D.LMRF, "cmrf": D.CMRF, "laplace": D.Laplace,
+           "uniform": D.Uniform}[kind]
+    kw = {kk: (np.array(v, dtype=float) if isinstance(v, np.ndarray) else v) for kk, v in params.items()}
+    if kind in ("gmrf", "lmrf", "cmrf"):
+        kw["bc_type"] = "zero"
+    kw["geometry"] = geometry
+    if name is not None:
+        kw["name"] = name
+    return cls(**kw)
+
+
+def _up_setup(cell):
+    """-> (component, ctor(prior) -> problem, reference forward x -> mean, n, shape of the prior's field,
+           geometry argument of the prior, admissible noise-variance readings or None (WangCubic: fixed variance),
+           facet string)."""
+    import cuqi
+    k, pk = cell["cat"], cell["prob"]
+    Tp = cuqi.testproblem
+    if pk == "d1":
+        dim, bc = cell["dim"], cell["BC"]
+        par = [1.25, 2.0, 1.5][k]
+        P = tp.custom_psf_1d(cell["size"], k) if cell["PSF"] == "custom" else cell["PSF"]
+        Pref = P if cell["PSF"] == "custom" else tp.psf_1d(cell["PSF"], cell["size"], par)
+        R = tp.conv1d_matrix(Pref, dim, bc)
+        ph = 1.0 + np.abs(refs.dyadic_vec(dim, k + 1))          # positive: scaled noise has no zero variance
+        okw = {} if cell["PSF"] == "custom" else {"PSF_param": par, "PSF_size": cell["size"]}
+
+        def ctor(prior):
+            return Tp.Deconvolution1D(dim=dim, PSF=P, BC=bc, phantom=ph.copy(), noise_type=cell["noise"],
+                                      noise_std=cell["std"], prior=prior, **okw)
+        return "Deconvolution1D", ctor, (lambda x: R @ x), dim, (dim,), dim, _up_readings(cell), "noise=" + cell["noise"]
+    if pk == "d1leg":
+        dim = cell["dim"]
+        if cell["PSF"] == "custom":
+            Pc = tp.custom_psf_1d(dim, k)
+            P, par = Pc, None
+            h = np.array([Pc[(i + dim // 2) % dim] for i in range(dim)])
+        else:
+            P, par = cell["PSF"], [8.0, 12.0, 6.0][k]
+            h = tp.legacy_kernel(cell["PSF"], dim, par)
+        R = tp.circulant(h)
+
+        def ctor(prior):
+            return Tp.Deconvolution1D(dim=dim, PSF=P, PSF_param=par, use_legacy=True, noise_type=cell["noise"],
+                                      noise_std=cell["std"], prior=prior)
+        return ("Deconvolution1D", ctor, (lambda x: R @ x), dim, (dim,), dim, _up_readings(cell),
+                "legacy,noise=" + cell["noise"])
+    if pk == "d2":
+        dim, bc = cell["dim"], cell["BC"]
+        n = dim * dim
+        par = [1.25, 2.0, 1.5][k]
+        P = tp.custom_psf_2d(cell["size"], k) if cell["PSF"] == "custom" else cell["PSF"]
+        Pref = P if cell["PSF"] == "custom" else tp.psf_2d(cell["PSF"], cell["size"], par)
+        R = tp.conv2d_matrix(Pref, dim, bc)
+        ph = (1.0 + np.abs(refs.dyadic_vec(n, k + 1))).reshape(dim, dim)
+        okw = {} if cell["PSF"] == "custom" else {"PSF_param": par, "PSF_size": cell["size"]}
+
+        def ctor(prior):
+            return Tp.Deconvolution2D(dim=dim, PSF=P, BC=bc, phantom=ph.copy(), noise_type=cell["noise"],
+                                      noise_std=cell["std"], prior=prior, **okw)
+        if cell["pgeom"] == "image2d":          # the geometry of the problem's own default prior
+            shape, geom = (dim, dim), cuqi.geometry.Image2D((dim, dim))
+        else:                                   # a prior left on its default (1-D) geometry of the right dimension
+            shape, geom = (n,), n
+        # (the geometry of the prior is not part of the signature facet: noise type and name kind are)
+        return "Deconvolution2D", ctor, (lambda x: R @ x), n, shape, geom, _up_readings(cell), "noise=" + cell["noise"]
+    if pk == "wang":
+        kw = {} if cell["data"] is None else {"data": cell["data"]}
+
+        def ctor(prior):
+            return Tp.WangCubic(noise_std=cell["std"], prior=prior, **kw)
+        return "WangCubic", ctor, (lambda x: np.array([tp.wang_cubic(x)])), 2, (2,), 2, None, "noise=gaussian"
+    raise ValueError(pk)
+
+
+def _up_readings(cell):
+    std = cell["std"]
+    if cell["noise"] == "gaussian":
+        return lambda y: [np.full(y.size, std ** 2)]
+    return lambda y: [(std * y) ** 2]
+
+
+def eval_uprior(res, cell):
+    """User-supplied prior.  The constructors document ``prior : cuqi.distribution.Distribution`` without restriction
+    on family or name, so for every cell of the product construction must succeed (a raise is a verdict), the
+    parameter of likelihood and posterior must be the prior's variable, the prior handed out must be the density that
+    was passed, the data must still be exactData + stated noise, and
+        posterior.logd(x) == Gaussian log-likelihood(stated noise; reference operator) + reference log-prior,
+    evaluated positionally and by keyword (the prior's name)."""
+    k, pfam, nk = cell["cat"], cell["pfam"], cell["name"]
+    comp, ctor, fwd_ref, n, shape, geom, readings, facet = _up_setup(cell)
+    facet = "%s,name=%s" % (facet, nk)
+    params = tp.user_prior_params(pfam, n, k)
+    res.count("uprior:" + cell["prob"])
+    # the name the posterior's parameter must carry
+    if nk == "default":
+        # "the name of the problem's own default prior", read off a default-constructed sibling
+        try:
+            sib, _ = _scripted(lambda: ctor(None), None)
+            expected = sib.prior.name
+            res.transitions += 1
+        except HarnessError:
+            raise
+        except Exception as e:
+            _refused(res, e)
+            return
+        if not isinstance(expected, str):
+            res.fail("C17|%s|user-prior|default-prior-unnamed" % comp, "the default prior has name %r" % (expected,))
+            return
+    else:
+        expected = {"x": "x", "other": _UP_OTHER, "inferred": _UP_LOCAL}[nk]
+
+    def build():
+        if nk == "inferred":
+            # unnamed prior held in the caller's local variable ``qprior``: the library infers the name from it
+            qprior = _up_distribution(pfam, params, geom, None)
+            return ctor(qprior)
+        return ctor(_up_distribution(pfam, params, geom, expected))
+    try:
+        prob, _ = _scripted(build, None)
+        res.transitions += 1
+    except HarnessError:
+        raise
+    except Exception as e:
+        res.state("construct-raises")
+        res.transitions += 1
+        res.outcomes.add("construct-raises:" + type(e).__name__)
+        res.fail("C17|%s|user-prior|construct-raises,%s" % (comp, facet), "the constructor raised %s: %s for a %s prior "
+                 "whose name (%r) is given as '%s' - a documented-legal option combination" %
+                 (type(e).__name__, str(e)[:200], pfam, expected, nk), family=pfam, prior_geometry=cell.get("pgeom"))
+        return
+    res.state("built")
+    # the variable of prior / likelihood / posterior
+    res.evaluations += 1
+    try:
+        names = {"prior.name": prob.prior.name, "likelihood": list(prob.likelihood.get_parameter_names()),
+                 "posterior": list(prob.posterior.get_parameter_names())}
+    except HarnessError:
+        raise
+    except Exception as e:
+        res.fail("C17|%s|user-prior|parameter-name-raises,%s" % (comp, facet), "asking for the parameter names raised %r" % (e,))
+        return
+    if names != {"prior.name": expected, "likelihood": [expected], "posterior": [expected]}:
+        res.fail("C17|%s|user-prior|parameter-name,%s" % (comp, facet), "the prior was given the name %r (%s); the problem "
+                 "hands out %r" % (expected, nk, names), family=pfam)
+        return
+    res.outcomes.add("parameter:%s" % expected)
+    res.state("named")
+    # data: exactData == reference operator(exactSolution), data == exactData + stated noise whatever the prior
+    if readings is None:
+        pz = prob
+        var = np.array([float(cell["std"]) ** 2])
+        data_ref = 1 if cell["data"] is None else cell["data"]
+        res.evaluations += 1
+        if not close(_arr(prob.data), data_ref, 1e-15):
+            res.fail("C17|%s|user-prior|data,%s" % (comp, facet), "data is not the given (default 1) observation")
+            return
+    else:
+        res.evaluations += 1
+        if not close(_arr(prob.exactData).ravel(), fwd_ref(_arr(prob.exactSolution).ravel()), 1e-9):
+            res.fail("C17|%s|user-prior|exactData,%s" % (comp, facet), "exactData is not the documented operator applied to "
+                     "exactSolution when a prior is supplied", family=pfam)
+            return
+        pz, var = check_noise(res, comp, facet, build, readings, "user-prior," + facet, light=True)
+        if var is None:
+            return
+    res.state("noise")
+    pts = [np.zeros(n), refs.dyadic_vec(n, k, scale=0.125), refs.dyadic_vec(n, k + 2, scale=0.5), np.eye(n)[0],
+           np.eye(n)[n - 1], params.get("mean", np.zeros(n)) + 0.25 * np.eye(n)[n // 2]]
+    check_components(res, comp, pz, var, pts)            # (d) with the library's own model / prior evaluations
+    if res.failures:
+        return
+    res.state("components")
+    if np.any(np.asarray(var) <= 0):
+        return
+    d = _arr(pz.data).ravel()
+    worst = 0.0
+    for x in pts:
+        lp_ref = tp.user_prior_logd(pfam, params, x, shape)
+        ll_ref = refs.gauss_logpdf(d, fwd_ref(x), np.asarray(var, float))
+        res.transitions += 4
+        try:
+            got = {"prior.logd": float(_arr(pz.prior.logd(x)).ravel()[0]),
+                   "posterior.logd": float(_arr(pz.posterior.logd(x)).ravel()[0]),
+                   "posterior.logd(keyword)": float(_arr(pz.posterior.logd(**{expected: x})).ravel()[0]),
+                   "likelihood.logd(keyword)": float(_arr(pz.likelihood.logd(**{expected: x})).ravel()[0])}
+        except HarnessError:
+            raise
+        except Exception as e:
+            res.fail("C17|%s|user-prior|logd-raises,%s" % (comp, facet), "evaluating prior / posterior / likelihood (positionally "
+                     "and by the keyword %r) raised %r" % (expected, e), x=x, family=pfam)
+            return
+        want = {"prior.logd": lp_ref, "posterior.logd": ll_ref + lp_ref, "posterior.logd(keyword)": ll_ref + lp_ref,
+                "likelihood.logd(keyword)": ll_ref}
+        for key, w in want.items():
+            res.evaluations += 1
+            g = got[key]
+            ok = (g == w) if not np.isfinite(w) else (np.isfinite(g) and close(g, w, 1e-9))
+            if not ok:
+                res.fail("C17|%s|user-prior|%s,%s" % (comp, key, facet), "%s = %r; reference (Gaussian log-likelihood of the "
+                         "stated noise %r, log-density of the %s prior that was passed %r) gives %r" %
+                         (key, g, ll_ref, pfam, lp_ref, w), x=x, family=pfam)
+                return
+            if np.isfinite(w):
+                worst = max(worst, abs(g - w))
+        res.outcomes.add("log-prior:" + ("finite" if np.isfinite(lp_ref) else "-inf"))
+    res.outcomes.add("user-prior:ok")
+    res.state("posterior==loglik+logprior")
+    res.sample = {"family": pfam, "name": expected, "posterior_logd_minus_reference_max_abs": worst, "points": len(pts)}
+
+
 def eval_cell(cell):
     res = CellResult(cell)
     fam = cell["fam"]
@@ -1450,6 +1729,8 @@ def eval_cell(cell):
         eval_wang(res, cell)
     elif fam == "use":
         eval_use(res, cell)
+    elif fam == "uprior":
+        eval_uprior(res, cell)
     else:
         raise ValueError(fam)
     return res
